@@ -56,6 +56,7 @@ class ConScenario(Scenario):
         #   collide: the peer's own request carried the ID the CON is going to use (separate ID spaces must not mix)
         #   class: the tuning is handed over as a TransportTuning subclass, not an instance (as aiocoap-client does)
         #   queued: the CON under test had to wait behind two earlier requests to the same endpoint, each answered in turn
+        #   default-after-edit: the CON has no tuning of its own (defaults 2 / 1.5 / 4), and another message's default tuning was edited before
         #   follower-withdrawn: a second request to the same endpoint was held back behind the CON under test and then withdrawn
         self.params = {"source": source, "ACK_TIMEOUT": at, "ACK_RANDOM_FACTOR": arf, "MAX_RETRANSMIT": mr, "uniform": uni, "pre": pre}
         self.name = "S-CON-%s-%s-%s-%s-%s-%s" % (source, at, arf, mr, uni, pre)
@@ -108,6 +109,14 @@ class ConScenario(Scenario):
                 st.early = early
                 qa = [d for d in w.sent if d.src == CLIENT][-1].data
             w.sent.clear()
+            if pre == "default-after-edit":
+                # some other message's default tuning was edited in place before; the CON under test is created without any tuning of
+                # its own and follows the protocol defaults
+                other = Message(code=GET, uri_path=["other"])
+                other.transport_tuning.ACK_TIMEOUT = 0.05
+                other.transport_tuning.ACK_RANDOM_FACTOR = 1.0
+                other.transport_tuning.MAX_RETRANSMIT = 1
+                tt = None
             m = Message(code=GET, uri_path=["x"], transport_tuning=tt)
             m.remote = st.node.remote(SERVER)
             if p["source"] == "block2":
@@ -396,6 +405,8 @@ def scenarios(tier, K):
     # forced collisions of message IDs (default tuning only)
     for (a, f, m) in ((0.5, 1.0, 1), (7, 3.0, 4), (2, 1.5, 4)):
         out.append(ConScenario("block2", a, f, m, "hi", K))
+    out.append(ConScenario("request", 2, 1.5, 4, "lo", K, "default-after-edit"))
+    out.append(ConScenario("request", 2, 1.5, 4, "hi", K, "default-after-edit"))
     for src, pres in (("request", ("strayack", "strayrst", "collide", "older", "class", "queued", "follower-withdrawn")), ("separate", ("collide", "class")),
                       ("notification", ("collide", "class"))):
         for pre in pres:
